@@ -81,7 +81,7 @@ class Ctx:
 
 class Result:
     __slots__ = ("verdict", "ret", "effects", "logs", "scratch", "stack", "why", "cat", "line", "steps",
-                 "max_stack", "boundaries", "pc")
+                 "max_stack", "boundaries", "pc", "call_depth")
 
     def __init__(self):
         self.verdict = None
@@ -97,6 +97,7 @@ class Result:
         self.max_stack = 0
         self.boundaries = None
         self.pc = None
+        self.call_depth = 0
 
     def key(self):
         """comparison key per DESIGN 1.4"""
@@ -340,6 +341,7 @@ class Machine:
         res.max_stack = mx
         res.scratch = self.scratch
         res.stack = list(st)
+        res.call_depth = len(self.calls)
         if res.verdict in ("FAIL", "RESOURCE"):
             pass
         return res
